@@ -41,12 +41,14 @@ def l2_ob(be, k, m, hd, order, ln=None, mode=1, force=0, expect=1, dest=0, ct=1,
         defs["DMG"] = dmg
         defs["DMGPOS"] = dmgpos
     if hdrdmg is not None:
-        defs["HDRDMG"], defs["HDRFIELD"] = hdrdmg
+        defs["HDRDMG"], defs["HDRFIELD"] = hdrdmg[0], hdrdmg[1]
+        if len(hdrdmg) > 2:
+            defs["HDRVAL"] = f"({hdrdmg[2]})"
     if uf:
         defs["UFCRC"] = None
         if dmg: defs["UFCONST"] = None
     units = (uf_units() if uf else real_crc_units()) + ["ref_format", "xor_eq"]
-    oid = f"{tag}-{BNAME[be]}{k}_{m}_{hd}-ct{ct}-len{ln}-m{mode}f{force}-o{'.'.join(map(str, order))}" + (f"-d{dest}" if mode == 2 else "") + (f"-dmg{dmg}p{dmgpos}" if dmg else "") + (f"-h{hdrdmg[0]}f{hdrdmg[1]}" if hdrdmg else "") + ("-uf" if uf else "") + (f"-e{expect}" if expect != 1 else "")
+    oid = f"{tag}-{BNAME[be]}{k}_{m}_{hd}-ct{ct}-len{ln}-m{mode}f{force}-o{'.'.join(map(str, order))}" + (f"-d{dest}" if mode == 2 else "") + (f"-dmg{dmg}p{dmgpos}" if dmg else "") + (f"-h{hdrdmg[0]}f{hdrdmg[1]}" + (f"v{hdrdmg[2]}" if len(hdrdmg) > 2 else "") if hdrdmg else "") + ("-uf" if uf else "") + (f"-e{expect}" if expect != 1 else "")
     ob = Ob(id=oid, harness="l2.c", defs=defs, units=units, unwind=max(8, k + m + 3, size + 3), timeout=timeout, mem_gb=mem,
             unwindset=dict({f"main.{i}": size + 84 for i in range(16)}, **{"ref_header.0": 84, "crc_run.0": 84, "crc_run.1": 84, "crc32.0": 84, "crc32.1": 84,
                             "ec_init_tables.0": 40, "ec_init_tables.1": 40, "ec_init_tables.2": 40, "uf_lookup.0": 30}),
